@@ -335,11 +335,15 @@ async fn run_script(env: Arc<Env>, listener: &mut net::tcp::Listener, c: &Value)
     let mut handles = vec![];
     let mut recs: Vec<Option<Msg>> = vec![None; n];
     let mut outs: Vec<bool> = vec![];
+    // H-SID, observed: both ends of a session see one id, different sessions different ids
+    let mut sid_ok = true;
     // phase 1: open every session; outbound victims send at once and the adversary records it
     for s in sess {
         let v = victim_of(gossip, s);
         let (client, server) = establish(ctx, &env, listener).await;
-        assert_eq!(client.id(), server.id());
+        if client.id() != server.id() || ids.contains(&client.id()) {
+            sid_ok = false;
+        }
         ids.push(client.id());
         let (vs, a) = if v.out { (client, server) } else { (server, client) };
         outs.push(v.out);
@@ -425,7 +429,7 @@ async fn run_script(env: Arc<Env>, listener: &mut net::tcp::Listener, c: &Value)
             })
         })
         .collect();
-    json!({ "sessions": sessions })
+    json!({ "sessions": sessions, "sid_ok": sid_ok })
 }
 
 async fn run_pair(env: Arc<Env>, listener: &mut net::tcp::Listener, c: &Value) -> Value {
